@@ -43,3 +43,69 @@ Example c01_example :
   let w := run_events [Start 7 true [1; 2]; CloseBegin 1; Notify 7 1 [1; 2]; Result 7 2 true []; Result 7 1 true []] in
   (r_replies (reqs w 7), r_done (reqs w 7), k_pending (conns w 2)) = (1, true, []).
 Proof. vm_compute. reflexivity. Qed.
+
+(** ---- added: the same property over the integrated request-path model Model/Core.v
+    (many requests, many connections, stream-id tables, retries, closes, failed writes) ---- *)
+From Coq Require Import List ZArith NArith Bool Permutation.
+From CqlProxy Require Import Lib.Val Gen.Tables Model.Retry Model.Core Proofs.CoreProofs Proofs.CoreProofs2.
+Local Open Scope N_scope.
+
+(** ** C01 -- exactly one response per client request, on the request's own stream *)
+
+(** T1.  Never two: a request gets at most one frame written to a client, and any frame written
+    for request [r] goes to the client and the client stream recorded for [r]. *)
+Theorem c01_core_at_most_one_reply : forall es r,
+  (length (client_replies (run_events es) r) <= 1)%nat /\
+  forall c s x, In (ToClient c s r x) (w_out (run_events es)) ->
+    exists q, lookupN r (w_reqs (run_events es)) = Some q /\ c = q_client q /\ s = q_cstream q.
+Proof. exact core_at_most_one_reply. Qed.
+Print Assumptions c01_core_at_most_one_reply.
+
+(** ... and that client and stream are the ones named by the [EStart] event that created [r]. *)
+Theorem c01_core_reply_to_own_client : forall es r cl cs idem p c s x,
+  first_start es r = Some (cl, cs, idem, p) -> In (ToClient c s r x) (w_out (run_events es)) -> c = cl /\ s = cs.
+Proof. exact core_reply_to_own_client. Qed.
+Print Assumptions c01_core_reply_to_own_client.
+
+(** T2.  The done flag of a started request is set exactly when its (single) reply has been written. *)
+Theorem c01_core_done_iff_replied : forall es r q,
+  lookupN r (w_reqs (run_events es)) = Some q ->
+  (q_done q = true <-> length (client_replies (run_events es) r) = 1%nat).
+Proof. exact core_done_iff_replied. Qed.
+Print Assumptions c01_core_done_iff_replied.
+
+(** T9.  Never none: in every reachable state in which every attempt has been answered or its
+    connection's close fully processed (no open connection has anything pending, no closing
+    connection has a notification left), every request that was started has been answered. *)
+Theorem c01_core_none_lost_at_quiescence : forall es,
+  quiescent (run_events es) -> forall r q, lookupN r (w_reqs (run_events es)) = Some q -> q_done q = true.
+Proof. exact core_none_lost_at_quiescence. Qed.
+Print Assumptions c01_core_none_lost_at_quiescence.
+
+(** ... exactly once. *)
+Theorem c01_core_exactly_one_at_quiescence : forall es,
+  quiescent (run_events es) -> forall r q, lookupN r (w_reqs (run_events es)) = Some q ->
+  length (client_replies (run_events es) r) = 1%nat.
+Proof. exact core_exactly_one_at_quiescence. Qed.
+Print Assumptions c01_core_exactly_one_at_quiescence.
+
+(** The reason: a started, unanswered request is registered in exactly one place (live in the pending
+    table of one open connection, or in one closing connection's list of notifications still to be
+    delivered); an answered one is registered nowhere. *)
+Theorem c01_core_unanswered_is_registered_once : forall es r q,
+  lookupN r (w_reqs (run_events es)) = Some q -> q_done q = false -> regs (run_events es) r = 1%nat.
+Proof. exact core_unanswered_is_registered_once. Qed.
+Print Assumptions c01_core_unanswered_is_registered_once.
+
+(** Non-vacuity: two requests, three connections, an Unavailable retry, a close with a pending
+    idempotent request whose next write fails, a read-timeout retry on the same host, two answers. *)
+Example c01_core_example :
+  (client_replies (run_events ex_es) 7, client_replies (run_events ex_es) 8,
+   option_map q_done (lookupN 7 (w_reqs (run_events ex_es))), first_start ex_es 7) =
+  ([ToClient 0 5%Z 7 (CFrame 3 1)], [ToClient 1 6%Z 8 (CFrame 2 0)], Some true, Some (0, 5%Z, true, [10; 20; 30])).
+Proof. exact ex_replies. Qed.
+Example c01_core_example_quiescent :
+  quiescent (run_events ex_es) /\ quiescentb (run_events (firstn 10 ex_es)) = false /\
+  map (fun rq => (fst rq, q_done (snd rq))) (w_reqs (run_events ex_es)) = [(7, true); (8, true)].
+Proof. exact ex_quiescent. Qed.
+
